@@ -100,3 +100,26 @@ def ModelDef.rename (σ : Name → Name) (d : ModelDef) : ModelDef where
   update := d.update.map fun p => (σ p.1, p.2.rename σ)
 
 end FormakVerif
+
+namespace FormakVerif
+
+/-- everything in the generated code whose order is decided by the generator: accessor slots, option
+fields / constructor arguments, the Python arglist, sensor ids and reading slots -/
+structure Skeleton where
+  stateSlots : List (Name × Nat)
+  controlSlots : List (Name × Nat)
+  calibrationSlots : List (Name × Nat)
+  arglist : List Name
+  sensorIds : List String
+  readingSlots : List (String × List (Name × Nat))
+  deriving DecidableEq, Repr
+
+def skeleton (d : ModelDef) (sensors : List (String × List Name)) : Skeleton where
+  stateSlots := (layout d.state).zipIdx
+  controlSlots := (layout d.control).zipIdx
+  calibrationSlots := (layout d.calibration).zipIdx
+  arglist := d.arglist
+  sensorIds := layout (sensors.map (·.1))
+  readingSlots := (layout (sensors.map (·.1))).map fun k => (k, (layout ((sensors.lookup k).getD [])).zipIdx)
+
+end FormakVerif
